@@ -380,6 +380,19 @@ func c10ColdBurst(c *caseCtx) {
 	G := 24
 	var gs []*genReq
 	var bodies [][]byte
+	var applicable, unknownNames []constraint
+	for _, cst := range constraints {
+		ok := cst.methods == nil
+		for _, m := range cst.methods {
+			ok = ok || m == method
+		}
+		if ok {
+			applicable = append(applicable, cst)
+			if strings.HasPrefix(cst.name, "unknown") {
+				unknownNames = append(unknownNames, cst)
+			}
+		}
+	}
 	for i := 0; i < 3*G; i++ {
 		o := genOpts{method: method, nBiases: c.rng.Intn(3), minCrit: 2, maxCrit: 4, minAlt: 2, maxAlt: 5}
 		if method == "choquetIntegral" {
@@ -389,6 +402,25 @@ func c10ColdBurst(c *caseCtx) {
 		mp := g.M["methodParameters"].(M)
 		if method == "majorityHeuristic" && mp["drawResolution"] == "" {
 			mp["drawResolution"] = pick(c.rng, drawPolicies[1:])
+		}
+		if i%4 == 1 && len(applicable) > 0 {
+			// every fourth request violates one documented constraint (the catalogue is walked through burst after burst):
+			// the error paths of a method meet its first successful uses
+			cst := applicable[((c.idx/len(methods))*(3*G/4)+i/4)%len(applicable)]
+			g = validBase(method, c.rng)
+			cst.apply(g.M)
+			g.invalid = true
+			c.count("cold_burst_constraint_violations", 1)
+			c.distinct("cold-constraint|" + method + "|" + cst.name)
+		}
+		if i%4 == 3 && len(unknownNames) > 0 {
+			// every burst meets every "unknown name" rejection of its method: those paths enumerate the shared registries
+			cst := unknownNames[(i/4)%len(unknownNames)]
+			g = validBase(method, c.rng)
+			cst.apply(g.M)
+			g.invalid = true
+			c.count("cold_burst_constraint_violations", 1)
+			c.distinct("cold-constraint|" + method + "|" + cst.name)
 		}
 		gs = append(gs, g)
 		bodies = append(bodies, g.body())
